@@ -351,7 +351,7 @@ def _tidy_inlined(blk, locals_):
                 else:
                     b[:] = nb or [ast.Pass()]
             if isinstance(st, ast.Assign) and len(st.targets) == 1 and isinstance(st.targets[0], ast.Tuple) and isinstance(st.value, ast.Tuple) \
-                    and len(st.targets[0].elts) == len(st.value.elts) and all(_pure(e) for e in st.value.elts) \
+                    and len(st.targets[0].elts) == len(st.value.elts) \
                     and not any(isinstance(e, ast.Starred) for e in st.targets[0].elts + st.value.elts):
                 tnames = {n.id for t in st.targets[0].elts for n in ast.walk(t) if isinstance(n, ast.Name)}
                 vnames = {n.id for v in st.value.elts for n in ast.walk(v) if isinstance(n, ast.Name)}
